@@ -29,12 +29,13 @@ type Stats struct {
 
 // KnownFinding describes an already triaged defect.
 type KnownFinding struct {
-	Property string `json:"property"`
-	Harness  string `json:"harness"`
-	Key      string `json:"key"`    // "assert:<msg>" or "panic:<kind>@<site>"
-	Region   string `json:"region"` // SMT-LIB Bool over harness inputs; "" or "true" = whole key
-	What     string `json:"what"`
-	Status   string `json:"status"` // "known" or "fixed: ..."
+	Property string         `json:"property"`
+	Harness  string         `json:"harness"`
+	Key      string         `json:"key"`               // "assert:<msg>" or "panic:<kind>@<site>"
+	Region   string         `json:"region"`            // SMT-LIB Bool over harness inputs; "" or "true" = whole key
+	Choices  map[string]int `json:"choices,omitempty"` // concrete verifChoice values the finding is limited to
+	What     string         `json:"what"`
+	Status   string         `json:"status"` // "known" or "fixed: ..."
 }
 
 type region struct {
@@ -165,6 +166,15 @@ func (ex *Explorer) regionsFor(c *Ctx, key string) []region {
 		txt := kf.Region
 		if txt == "" {
 			txt = "true"
+		}
+		match := true
+		for name, want := range kf.Choices {
+			if got, have := c.choices[name]; !have || got != want {
+				match = false
+			}
+		}
+		if !match {
+			continue
 		}
 		var vars []*Term
 		for _, n := range c.inputOrder {
